@@ -170,10 +170,15 @@ def tri_area(a, b, c):
     return 2.0 * np.arctan2(det, den)
 
 
-def quad_area(q):
+def quad_area(q, inc):
+    """Area of the tile = its two triangles along its own diagonal (for the level-1 tiles the other
+    diagonal would join the two poles, which are antipodal)."""
     q = np.asarray(q)
+    inc = np.asarray(inc, dtype=bool)
     ul, ur, lr, ll = q[..., 0, :], q[..., 1, :], q[..., 2, :], q[..., 3, :]
-    return tri_area(ul, ur, ll) + tri_area(ur, lr, ll)
+    a_inc = tri_area(ul, ur, ll) + tri_area(ur, lr, ll)
+    a_dec = tri_area(ul, ur, lr) + tri_area(ul, lr, ll)
+    return np.where(inc, a_inc, a_dec)
 
 
 def quad_inside_margin(q, p):
